@@ -201,7 +201,12 @@ func H_C06_stream() {
 	kinds := make([]int, n)
 	vals := make([]interface{}, n)
 	for i := range vals {
-		kinds[i] = vChoice("kind", 18)
+		if i == 2 {
+			// third value (thorough tier): the kinds that refer back to earlier messages or are referred to
+			kinds[i] = []int{0, 2, 4, 5, 13, 14}[vChoice("kind3", 6)]
+		} else {
+			kinds[i] = vChoice("kind", 18)
+		}
 		vals[i] = zStreamValue(kinds[i], "v", shared)
 	}
 	viaSerializer := vChoice("api", 2) == 1
